@@ -170,6 +170,10 @@ MUTANTS = [
     ("weak_form_no_memo", "bempp_cl/api/assembly/boundary_operator.py", "        if not self._cached:\n            self._cached = self._assemble()\n\n        return self._cached", "        self._cached = self._assemble()\n\n        return self._cached", 0, ["C18"]),
     ("fmm_near_kernel_gradient_sign", "bempp_cl/api/fmm/helpers.py", "                    -diff[i, j] * m_inv_4pi / (dist[j] * dist[j] * dist[j])", "                    diff[i, j] * m_inv_4pi / (dist[j] * dist[j] * dist[j])", 0, ["C17"]),
     ("fmm_dl_component", "bempp_cl/api/fmm/fmm_assembler.py", "fmm_res2 = fmm_interface.evaluate(source_normals[:, 1] * x_transformed)[:, 2]", "fmm_res2 = fmm_interface.evaluate(source_normals[:, 1] * x_transformed)[:, 1]", 0, ["C17"]),
+    ("near_field_coefficient_index", "bempp_cl/api/fmm/helpers.py", "* coeffs[npoints * source_element + source_point_index]", "* coeffs[npoints * source_element_index + source_point_index]", 0, ["C17"]),
+    ("near_field_matrix_column", "bempp_cl/api/fmm/helpers.py", "indices[local_count] = npoints * source_element + source_point_index", "indices[local_count] = npoints * source_element_index + source_point_index", 0, ["C17"]),
+    ("near_field_read_stride", "bempp_cl/api/fmm/helpers.py", "                                + 4 * source_element_index * npoints\n", "                                + 4 * source_element_index * nneighbors\n", 0, ["C17"]),
+    ("near_field_wrong_neighbours", "bempp_cl/api/fmm/helpers.py", "neighbor_indices[neighbor_indexptr[target_element] : neighbor_indexptr[1 + target_element]]", "neighbor_indices[neighbor_indexptr[target_element] : neighbor_indexptr[target_element] + nneighbors - 1]", 0, ["C17"]),
     ("maxwell_fmm_efield_sign", "bempp_cl/api/fmm/fmm_assembler.py", "result *= -1j * wavenumber", "result *= 1j * wavenumber", 0, ["C17"]),
     ("maxwell_fmm_curl_component", "bempp_cl/api/fmm/fmm_assembler.py", "(vals[2][:, 1] - vals[1][:, 2]).reshape(-1, 1),", "(vals[2][:, 1] - vals[1][:, 0]).reshape(-1, 1),", 0, ["C17"]),
     ("maxwell_fmm_test_maps_from_domain", "bempp_cl/api/fmm/fmm_assembler.py", "_, dual_rwg_map = compute_rwg_basis_transform(dual_to_range, order)", "_, dual_rwg_map = compute_rwg_basis_transform(domain, order)", 0, ["C17"]),
